@@ -49,7 +49,7 @@ def gen_label(rng, name=None):
     return "%s-%d.%d" % (name, rng.choice([0, 1, 2, 10, rng.randint(0, 999)]), rng.choice([0, 1, 9, 12, rng.randint(0, 999)]))
 
 
-def gen_compose(rng, ctype=None, label="random"):
+def gen_compose(rng, ctype=None, label="random", hostile=True):
     date = "%04d%02d%02d" % (rng.randint(1999, 2035), rng.randint(1, 12), rng.randint(1, 28))
     if rng.random() < 0.2:
         date = "%08d" % rng.randint(0, 99999999)
@@ -62,8 +62,13 @@ def gen_compose(rng, ctype=None, label="random"):
     else:
         lab = gen_label(rng, label)
     r = rng.random()
+    if not hostile:
+        r = r * 0.6 if rng.random() < 0.7 else 0.7
     if r < 0.6:
         cid = "<create>"
+    elif not hostile:
+        cid = "%s-%s-%s%s.%d" % (text.word(rng, 1, 5), rng.choice(["1", "7.2", "Rawhide"]), date,
+                                 rng.choice(["", ".n", ".t", ".ci", ".d", ".nightly", ".test"]), rng.randint(0, 20))
     elif r < 0.8:
         cid = "%s-%s" % (text.word(rng, 1, 5), date) + rng.choice(["", ".n", ".t.1", ".0", ".d.2", " free text", "é"])
     else:
@@ -152,7 +157,7 @@ def gen_description(rng, force=None, hostile=True):
         if label == "none":
             label = None
     ctype = force[6:] if force and force.startswith("ctype-") else None
-    comp = gen_compose(rng, ctype, label)
+    comp = gen_compose(rng, ctype, label, hostile=hostile)
     if force == "final-true":
         comp["final"] = True
         if comp["label"] is None:
